@@ -932,6 +932,54 @@ class Concat(Sub):
         return None
 
 
+class ConcatArrays(Sub):
+    name = 'c06.concat_arrays'
+    rule = ('& over arrays, like the arithmetic operators: every flat array of length 1..3 over {text, integer, blank, 0} joined with '
+            'each of 5 scalars on either side and with every array of the same length is the list of the joined items; lengths 2 '
+            'against 3 give #VALUE!; host lists and (without blanks) literal arrays; non-trivial = all')
+    min_cases = 20
+    min_nontrivial = 500
+    POOL = ['ab', 7, None, 0]
+    SCAL = ['x', 12, None, '', -3]
+
+    @staticmethod
+    def t(v):
+        return '' if v is None else str(v)
+
+    def cases(self, tier, unit):
+        for n in (1, 2, 3):
+            for items in itertools.product(range(len(self.POOL)), repeat=n):
+                yield [list(items)]
+
+    def check(self, env, case):
+        a = [self.POOL[i] for i in case[0]]
+        out = []
+
+        def demand(f, vars_, want):
+            env.nt()
+            o = env.evo(f, vars_)
+            if o != (['e', want[1]] if isinstance(want, tuple) else ['v', want]):
+                out.append(fail('%s%s = %r, expected %r (& combines arrays item by item, as + does)' % (
+                    f, (' with %r' % vars_) if vars_ else '', o, want), want, o))
+        for sc in self.SCAL:
+            if len(a) > 1:
+                demand('xa&xs', {'xa': a, 'xs': sc}, [self.t(x) + self.t(sc) for x in a])
+                demand('xs&xa', {'xa': a, 'xs': sc}, [self.t(sc) + self.t(x) for x in a])
+        if len(a) > 1:
+            for other in itertools.product(self.POOL, repeat=len(a)):
+                demand('xa&xb', {'xa': a, 'xb': list(other)}, [self.t(x) + self.t(y) for x, y in zip(a, other)])
+                if len(out) > 3:
+                    break
+            longer = a + ['z'] if len(a) == 2 else a[:2]
+            demand('xa&xb', {'xa': a, 'xb': longer}, ('e', '#VALUE!'))
+            demand('xb&xa', {'xa': a, 'xb': longer}, ('e', '#VALUE!'))
+            if None not in a:
+                la = '{%s}' % ','.join(lit(x) for x in a)
+                demand(la + '&"x"', None, [self.t(x) + 'x' for x in a])
+                demand('12&' + la, None, ['12' + self.t(x) for x in a])
+        return out[:4]
+
+
 EARLY = [D(1900, 1, 1), D(1900, 1, 2), D(1900, 2, 28), D(1900, 1, 1, 12, 0)]
 EARLY_NUMS = [0, 1, 2, -1, 0.5, True, None, '0', '2']
 
@@ -1144,5 +1192,5 @@ class ArrayScale(Sub):
         return out
 
 
-SUBS = [ScalarPairs(), ArrayScalar(), ArrayArray(), Mismatch(), OneItem(), RangeShapes(), Extremes(), JoinRoundTrip(), Nested(), LiteralArrays(), Concat(), EarlyDates(),
+SUBS = [ScalarPairs(), ArrayScalar(), ArrayArray(), Mismatch(), OneItem(), RangeShapes(), Extremes(), JoinRoundTrip(), ConcatArrays(), Nested(), LiteralArrays(), Concat(), EarlyDates(),
         ExactIntegers(), ArrayReuse(), ArrayScale()]
